@@ -1,0 +1,26 @@
+//go:build verif
+
+// Contracts (machine-checked by /verif/bin/govc).  Comment-only file.
+
+package main
+
+// ---- C02: the test-mode loops of main act only on UEs that completed the prerequisite procedure ----
+//@ func main
+//@ prop C02
+//@ behavior testmode
+//@ driver
+//@ assumepre
+//@ given os.Args = []string{"stg-utg", "-t"}
+//@ loop i#2 invariant lists (i int, ueList []*tglib.RanUeContext, pduList [][]byte): 0 <= i && len(ueList) == i && len(pduList) == i
+// A loop attempts its procedure for the UEs 0..n-1 of the list; the loop of the prerequisite
+// procedure ran to its end for 0..m-1 (or the process ended): n <= m is "no procedure for a UE that
+// has not completed the prerequisite" — establishment after registration, service request and
+// release after establishment, deregistration after registration.
+//@ loop i#3 invariant pos (i int): 0 <= i
+//@ loop i#3 invariant prereq (ueList []*tglib.RanUeContext, pdu_establishment_number int): pdu_establishment_number <= len(ueList)
+//@ loop i#4 invariant pos (i int): 0 <= i
+//@ loop i#4 invariant prereq (service_request_number int, pdu_establishment_number int): service_request_number <= pdu_establishment_number
+//@ loop i#5 invariant pos (i int): 0 <= i
+//@ loop i#5 invariant prereq (pdu_release_number int, pdu_establishment_number int): pdu_release_number <= pdu_establishment_number
+//@ loop i#6 invariant pos (i int): 0 <= i
+//@ loop i#6 invariant prereq (ueList []*tglib.RanUeContext, ue_deregistration_number int): ue_deregistration_number <= len(ueList)
